@@ -7,10 +7,19 @@
 (* of the new object's count.  Threads own private slots; one shared slot   *)
 (* (a mailbox) is only touched under a Mutex.  An object goes back to its   *)
 (* pool when recycled and can then be obtained again (a new incarnation).   *)
+(* Objects may hold a Ref to another object themselves (a singly linked     *)
+(* chain, single-threaded instances only: a Ref is not itself thread-safe): *)
+(* recycling an object drops its member Ref, which may recycle the next     *)
+(* object, and so on.                                                       *)
 (* The property (C10, reference part) is at the bottom.                     *)
 (***************************************************************************)
-EXTENDS Naturals, Sequences, FiniteSets, TLC
-CONSTANTS T, O, K, MaxOps, RECORD
+EXTENDS Integers, Sequences, FiniteSets, TLC
+CONSTANTS T, O, K, MaxOps, RECORD,
+          Chains,   \* TRUE: objects have a member Ref "next"; operations Link (obj.next := slot) and Pop (slot := slot's obj.next)
+          Order     \* "ref_first": SetRef counts the new item before it gives up the old one (as coded);
+                    \* "unref_first": the other way round - wrong when the old item holds the last other reference to the new one
+                    \* (slot := slot->next): kept to show that NeverEarly is not vacuous
+ASSUME Chains => Cardinality(T) = 1
 VARIABLES cnt,     \* [O -> Nat] the atomic reference count
           alive,   \* [O -> BOOLEAN] obtained from the pool and not yet recycled
           slot,    \* [T -> [1..K -> O \cup {0}]] private Ref slots (0 = NULL)
@@ -20,19 +29,23 @@ VARIABLES cnt,     \* [O -> Nat] the atomic reference count
           nops,    \* [T -> Nat]
           nrel,    \* [O -> Nat] how often the object was recycled (ghost)
           nobt,    \* [O -> Nat] how often the object was obtained (ghost)
+          nxt,     \* [O -> O \cup {0}] the object's member Ref
           last
-vars == <<cnt, alive, slot, mbox, lock, todo, nops, nrel, nobt, last>>
+vars == <<cnt, alive, slot, mbox, lock, todo, nops, nrel, nobt, nxt, last>>
 
 Init == /\ cnt = [o \in O |-> 0] /\ alive = [o \in O |-> FALSE]
         /\ slot = [t \in T |-> [k \in 1..K |-> 0]] /\ mbox = 0 /\ lock = 0
         /\ todo = [t \in T |-> <<>>] /\ nops = [t \in T |-> 0]
-        /\ nrel = [o \in O |-> 0] /\ nobt = [o \in O |-> 0] /\ last = [a |-> "Init"]
+        /\ nrel = [o \in O |-> 0] /\ nobt = [o \in O |-> 0] /\ nxt = [o \in O |-> 0] /\ last = [a |-> "Init"]
 Log(t, a, rec) == last' = IF RECORD THEN [t |-> t, a |-> a] @@ rec ELSE last
 
-\* ConstRef::SetRef(item): nothing if it is the same item; otherwise UnrefItem(); store; RefItem()
+\* ConstRef::SetRef(item): nothing if it is the same item; otherwise a temporary Ref counts the new item, the two are swapped, and the
+\* temporary's destructor gives up the old item
 SetRefSteps(loc, cur, new) ==
     IF cur = new THEN <<>>
-    ELSE (IF cur # 0 THEN <<[k |-> "dec", o |-> cur]>> ELSE <<>>) \o <<[k |-> "store", loc |-> loc, v |-> new]>> \o (IF new # 0 THEN <<[k |-> "inc", o |-> new]>> ELSE <<>>)
+    ELSE IF Order = "ref_first"
+         THEN (IF new # 0 THEN <<[k |-> "inc", o |-> new]>> ELSE <<>>) \o <<[k |-> "store", loc |-> loc, v |-> new]>> \o (IF cur # 0 THEN <<[k |-> "dec", o |-> cur]>> ELSE <<>>)
+         ELSE (IF cur # 0 THEN <<[k |-> "dec", o |-> cur]>> ELSE <<>>) \o <<[k |-> "store", loc |-> loc, v |-> new]>> \o (IF new # 0 THEN <<[k |-> "inc", o |-> new]>> ELSE <<>>)
 
 Idle(t) == todo[t] = <<>> /\ nops[t] < MaxOps
 Begin(t, steps, a, rec) == /\ todo' = [todo EXCEPT ![t] = steps] /\ nops' = [nops EXCEPT ![t] = @ + 1] /\ Log(t, a, rec)
@@ -42,30 +55,42 @@ New(t, k) == /\ Idle(t) /\ \E o \in O : ~alive[o] /\ cnt[o] = 0 /\ (\A p \in O :
              /\ LET o == CHOOSE x \in O : ~alive[x] /\ (\A p \in O : (p < x) => alive[p]) IN
                 /\ alive' = [alive EXCEPT ![o] = TRUE] /\ nobt' = [nobt EXCEPT ![o] = @ + 1]
                 /\ Begin(t, SetRefSteps(<<t, k>>, slot[t][k], o), "New", [k |-> k, o |-> o])
-             /\ UNCHANGED <<cnt, slot, mbox, lock, nrel>>
+             /\ UNCHANGED <<cnt, slot, mbox, lock, nrel, nxt>>
 Copy(t, k, j) == /\ Idle(t) /\ k # j
                  /\ Begin(t, SetRefSteps(<<t, k>>, slot[t][k], slot[t][j]), "Copy", [k |-> k, j |-> j])
-                 /\ UNCHANGED <<cnt, alive, slot, mbox, lock, nrel, nobt>>
+                 /\ UNCHANGED <<cnt, alive, slot, mbox, lock, nrel, nobt, nxt>>
 Reset(t, k) == /\ Idle(t) /\ slot[t][k] # 0
                /\ Begin(t, <<[k |-> "dec", o |-> slot[t][k]], [k |-> "store", loc |-> <<t, k>>, v |-> 0]>>, "Reset", [k |-> k])
-               /\ UNCHANGED <<cnt, alive, slot, mbox, lock, nrel, nobt>>
+               /\ UNCHANGED <<cnt, alive, slot, mbox, lock, nrel, nobt, nxt>>
 \* swapping two Refs touches no count
 Swap(t, k, j) == /\ Idle(t) /\ k < j /\ slot[t][k] # slot[t][j]
                  /\ slot' = [slot EXCEPT ![t] = [@ EXCEPT ![k] = slot[t][j], ![j] = slot[t][k]]]
                  /\ nops' = [nops EXCEPT ![t] = @ + 1] /\ Log(t, "Swap", [k |-> k, j |-> j])
-                 /\ UNCHANGED <<cnt, alive, mbox, lock, todo, nrel, nobt>>
+                 /\ UNCHANGED <<cnt, alive, mbox, lock, todo, nrel, nobt, nxt>>
 \* a temporary alias of slot k that switches reference counting on (or off) for the SAME item: SetRef(item, flag) with the item
 \* unchanged must adjust the count by exactly one; the temporary then dies
 Alias(t, k) == /\ Idle(t) /\ slot[t][k] # 0
                /\ Begin(t, <<[k |-> "inc", o |-> slot[t][k]], [k |-> "dec", o |-> slot[t][k]]>>, "Alias", [k |-> k])
-               /\ UNCHANGED <<cnt, alive, slot, mbox, lock, nrel, nobt>>
+               /\ UNCHANGED <<cnt, alive, slot, mbox, lock, nrel, nobt, nxt>>
 \* under the mailbox lock: mailbox := slot k   /   slot k := mailbox
 Publish(t, k) == /\ Idle(t) /\ lock = 0 /\ lock' = t
                  /\ Begin(t, SetRefSteps(<<0, 0>>, mbox, slot[t][k]) \o <<[k |-> "unlock"]>>, "Publish", [k |-> k])
-                 /\ UNCHANGED <<cnt, alive, slot, mbox, nrel, nobt>>
+                 /\ UNCHANGED <<cnt, alive, slot, mbox, nrel, nobt, nxt>>
 Take(t, k) == /\ Idle(t) /\ lock = 0 /\ lock' = t
               /\ Begin(t, SetRefSteps(<<t, k>>, slot[t][k], mbox) \o <<[k |-> "unlock"]>>, "Take", [k |-> k])
-              /\ UNCHANGED <<cnt, alive, slot, mbox, nrel, nobt>>
+              /\ UNCHANGED <<cnt, alive, slot, mbox, nrel, nobt, nxt>>
+
+\* obj(slot k).next := slot j   (never making a cycle: a cycle of counted references is a leak by construction, not the library's doing)
+RECURSIVE ReachN(_, _, _)
+ReachN(a, b, n) == IF a = 0 \/ n = 0 THEN FALSE ELSE IF a = b THEN TRUE ELSE ReachN(nxt[a], b, n - 1)
+Reach(a, b) == ReachN(a, b, Cardinality(O) + 1)
+Link(t, k, j) == /\ Chains /\ Idle(t) /\ slot[t][k] # 0 /\ ~Reach(slot[t][j], slot[t][k])
+                 /\ Begin(t, SetRefSteps(<<-1, slot[t][k]>>, nxt[slot[t][k]], slot[t][j]), "Link", [k |-> k, j |-> j])
+                 /\ UNCHANGED <<cnt, alive, slot, mbox, lock, nrel, nobt, nxt>>
+\* slot k := obj(slot k).next   (pop the head of a chain: the old head may hold the last other reference to the new one)
+Pop(t, k) == /\ Chains /\ Idle(t) /\ slot[t][k] # 0
+             /\ Begin(t, SetRefSteps(<<t, k>>, slot[t][k], nxt[slot[t][k]]), "Pop", [k |-> k])
+             /\ UNCHANGED <<cnt, alive, slot, mbox, lock, nrel, nobt, nxt>>
 
 \* one step of the current operation
 Step(t) == /\ todo[t] # <<>>
@@ -74,29 +99,34 @@ Step(t) == /\ todo[t] # <<>>
                      /\ cnt' = [cnt EXCEPT ![s.o] = @ - 1]
                      /\ todo' = [todo EXCEPT ![t] = IF cnt[s.o] = 1 THEN <<[k |-> "recycle", o |-> s.o]>> \o Tail(@) ELSE Tail(@)]
                      /\ Log(t, "Dec", [o |-> s.o, zero |-> (cnt[s.o] = 1)])
-                     /\ UNCHANGED <<alive, slot, mbox, lock, nrel>>
+                     /\ UNCHANGED <<alive, slot, mbox, lock, nrel, nxt>>
                 [] s.k = "inc" ->
                      /\ cnt' = [cnt EXCEPT ![s.o] = @ + 1] /\ todo' = [todo EXCEPT ![t] = Tail(@)]
                      /\ Log(t, "Inc", [o |-> s.o, zero |-> FALSE])
-                     /\ UNCHANGED <<alive, slot, mbox, lock, nrel>>
-                [] s.k = "recycle" ->
+                     /\ UNCHANGED <<alive, slot, mbox, lock, nrel, nxt>>
+                [] s.k = "recycle" /\ nxt[s.o] # 0 ->      \* the object is reset / destroyed first: its member Ref lets go of the next object
+                     /\ todo' = [todo EXCEPT ![t] = <<[k |-> "dec", o |-> nxt[s.o]], [k |-> "store", loc |-> <<-1, s.o>>, v |-> 0], s>> \o Tail(@)]
+                     /\ UNCHANGED <<cnt, alive, slot, mbox, lock, nrel, nxt, last>>
+                [] s.k = "recycle" /\ nxt[s.o] = 0 ->
                      /\ alive' = [alive EXCEPT ![s.o] = FALSE] /\ nrel' = [nrel EXCEPT ![s.o] = @ + 1] /\ todo' = [todo EXCEPT ![t] = Tail(@)]
                      /\ Log(t, "Recycle", [o |-> s.o, zero |-> FALSE])
-                     /\ UNCHANGED <<cnt, slot, mbox, lock>>
+                     /\ UNCHANGED <<cnt, slot, mbox, lock, nxt>>
                 [] s.k = "store" ->
-                     /\ IF s.loc = <<0, 0>> THEN mbox' = s.v /\ UNCHANGED slot ELSE slot' = [slot EXCEPT ![s.loc[1]][s.loc[2]] = s.v] /\ UNCHANGED mbox
+                     /\ IF s.loc = <<0, 0>> THEN mbox' = s.v /\ UNCHANGED <<slot, nxt>>
+                        ELSE IF s.loc[1] = -1 THEN nxt' = [nxt EXCEPT ![s.loc[2]] = s.v] /\ UNCHANGED <<slot, mbox>>
+                        ELSE slot' = [slot EXCEPT ![s.loc[1]][s.loc[2]] = s.v] /\ UNCHANGED <<mbox, nxt>>
                      /\ todo' = [todo EXCEPT ![t] = Tail(@)] /\ UNCHANGED last
                      /\ UNCHANGED <<cnt, alive, lock, nrel>>
                 [] s.k = "unlock" ->
                      /\ lock' = 0 /\ todo' = [todo EXCEPT ![t] = Tail(@)] /\ UNCHANGED last
-                     /\ UNCHANGED <<cnt, alive, slot, mbox, nrel>>
+                     /\ UNCHANGED <<cnt, alive, slot, mbox, nrel, nxt>>
            /\ UNCHANGED <<nops, nobt>>
 
 Next == \E t \in T : \/ Step(t)
-                     \/ \E k \in 1..K : New(t, k) \/ Reset(t, k) \/ Alias(t, k) \/ Publish(t, k) \/ Take(t, k) \/ \E j \in 1..K : Copy(t, k, j) \/ Swap(t, k, j)
+                     \/ \E k \in 1..K : New(t, k) \/ Reset(t, k) \/ Alias(t, k) \/ Publish(t, k) \/ Take(t, k) \/ Pop(t, k) \/ \E j \in 1..K : Copy(t, k, j) \/ Swap(t, k, j) \/ Link(t, k, j)
 Spec == Init /\ [][Next]_vars
 -------------------------------------------------------------------------------
-Refs(o) == Cardinality({<<t, k>> \in T \X (1..K) : slot[t][k] = o}) + (IF mbox = o THEN 1 ELSE 0)
+Refs(o) == Cardinality({<<t, k>> \in T \X (1..K) : slot[t][k] = o}) + (IF mbox = o THEN 1 ELSE 0) + Cardinality({p \in O : alive[p] /\ nxt[p] = o})
 PendingObjs(t) == {todo[t][i].o : i \in {j \in 1..Len(todo[t]) : todo[t][j].k \in {"inc", "dec"}}} \cup {todo[t][i].v : i \in {j \in 1..Len(todo[t]) : todo[t][j].k = "store"}}
 \* a slot that the running operation is about to overwrite may dangle for that moment (UnrefItem(); then the pointer is replaced)
 Overwriting(t) == {todo[t][i].loc : i \in {j \in 1..Len(todo[t]) : todo[t][j].k = "store"}}
@@ -104,9 +134,11 @@ AllOverwriting == UNION {Overwriting(t) : t \in T}
 \* never early: whatever a Ref points at (or is about to count / point at) has not been recycled
 NeverEarly == /\ \A t \in T, k \in 1..K : (slot[t][k] # 0 /\ <<t, k>> \notin Overwriting(t)) => alive[slot[t][k]]
               /\ ((mbox # 0 /\ <<0, 0>> \notin AllOverwriting) => alive[mbox])
+              /\ \A p \in O : (alive[p] /\ nxt[p] # 0 /\ <<-1, p>> \notin AllOverwriting) => alive[nxt[p]]
               /\ \A t \in T : \A o \in PendingObjs(t) \ {0} : alive[o]
 \* a pending recycle is for an object whose count is zero and that no other Ref points at
 RefsExcept(o, locs) == Cardinality({<<t, k>> \in T \X (1..K) : slot[t][k] = o /\ <<t, k>> \notin locs}) + (IF mbox = o /\ <<0, 0>> \notin locs THEN 1 ELSE 0)
+                       + Cardinality({p \in O : alive[p] /\ nxt[p] = o /\ <<-1, p>> \notin locs})
 RecycleOnlyUnreferenced == \A t \in T : \A i \in 1..Len(todo[t]) : todo[t][i].k = "recycle" =>
                                (cnt[todo[t][i].o] = 0 /\ alive[todo[t][i].o] /\ RefsExcept(todo[t][i].o, AllOverwriting) = 0)
 \* exactly once: an object is recycled once per incarnation
